@@ -38,7 +38,7 @@ def cmd_of(a):
 def t1(ctx, exe, names, cap):
     lines, scripts, expected_dev, mismatching = [], [], set(), set()
     rnd = random.Random(ctx.seed + 59)
-    dumps = adtb.tlc_edges_many(ctx, MC, [('edges_' + n, edge_cfg(n)) for n in names])
+    dumps = adtb.tlc_edges_many(ctx, MC, [('edges_' + n, edge_cfg(n)) for n in names], workers=4 if ctx.thorough else 1)
     for name, (edges, r) in zip(names, dumps):
         todo, nstates = adtb.edge_paths(edges, lambda s: s['q'] == [] and s['now'] == 0 and s['nextId'] == 1,
                                         avoid=lambda e: e['a'].get('dev'))
@@ -149,7 +149,7 @@ def run(ctx):
     n_t1 = len(lines)
     # 3. T2
     rnd = random.Random(ctx.seed * 7919 + 59)
-    nh, nops = (1500, 300) if ctx.thorough else (150, 200)
+    nh, nops = (1000, 300) if ctx.thorough else (150, 200)
     styles = ['mixed'] * 6 + ['ties'] * 3 + ['cancelall']
     t2s = [gen_history(rnd, nops, styles[i % len(styles)]) for i in range(nh)]
     hs = adtb.run_histories(ctx, exe, t2s)
